@@ -28,7 +28,7 @@ CHECKS = {
          "Held (up to the two listed known findings) on the executions explored: random fork/join DAGs of 3..9 tasks with publish / publish-on-error / transition-level branch and global publishes of values unique to their publisher (scalars, lists, dictionaries with publisher-specific keys, nested, empty), literal / YAQL / Jinja, fallbacks in input / vars / environment, some tasks attempting to mutate what they see through Jinja method calls; each program under several id orders (seeded uuids) and unit orders; oracle: every variable a task's action receives and every output variable is exactly the value of a causally maximal publisher among the ancestors (fallback if none; concurrent publishers for globals), stored in_context / published / input columns change only in the commits that legitimately write them, evaluate_recursively leaves its context argument unchanged (icontract). Programs include inbound transitions that do not fire into partial joins (a task named as inbound but not on a causal path must not contribute data).",
          "runtime monitoring: causal-order oracle over recorded ACTION_RUN inputs with unique published values + per-commit column-stability monitor + runtime contract (icontract) on evaluate_recursively"),
  'C06': ('fault_enumeration',
-         "Held on the fault sequences enumerated: for each recorded message of a base run a copy is delivered at later unit boundaries of the identical schedule (start_task, on_action_complete incl. sub-workflow results, start_workflow with id), run_action is redelivered with/without losing the original x safe-rerun; oracle: normal form and row counts equal to the duplicate-free run, run-once and accepted-once counters. Base histories may contain an operator pause (workflow / running asynchronous action) and resume, so copies also reach PAUSED tasks; per action execution the genuine results never outnumber its runs; lost compare-and-swap injection (another process completes the task first): the loser creates no task and sends no start request.",
+         "Held on the fault sequences enumerated: for each recorded message of a base run a copy is delivered at later unit boundaries of the identical schedule (start_task, on_action_complete incl. sub-workflow results, start_workflow with id), run_action is redelivered with/without losing the original x safe-rerun; oracle: normal form and row counts equal to the duplicate-free run, run-once and accepted-once counters. Base histories may contain an operator pause (workflow / running asynchronous action) and resume, so copies also reach PAUSED tasks; per action execution the genuine results never outnumber its runs; lost compare-and-swap injection (another process completes the task first): the loser creates no task and sends no start request; transient database error (deadlock at the k-th writing statement, handler retried by the engine): the run ends like the run without the error.",
          "runtime monitoring: offline comparison of recorded histories (duplicate-free vs duplicated run) + exactly-once counters over ACTION_RUN / RPC_SEND events under message duplication at every position"),
  'C07': ('exploration',
          "Held on the executions explored: a with-items task over 0..7 items (actions or sub-workflows, one or two collections), concurrency absent / 1..n+1 / expression, per-item success / error / cancel, optional retry, item results held by the harness and delivered in every order (n! for small n) under several transaction orders; invariants evaluated after every commit (per index at most one accepted-or-unfinished child, indexes in range, unfinished children <= concurrency, no completion before every item is accepted) and at completion (state by the statement, published result in item order, empty list succeeds without children). Also: rerun of the failed task inside several failed sub-workflow items back to back, rerun of CANCELLED tasks (also while items of the cancelled attempt still run), a warm engine process (same definition run before with another concurrency).",
